@@ -57,6 +57,15 @@ def run(chk):
                 break
     # alignments of fixed-size batches over whole runs (a value that is stale only inside a batch shows only at particular
     # offsets and only on runs where the estimate M grows a little late in the run: many moderately long runs)
+    for _ in range(12 if thorough else 4):      # the caller's objects are re-used for several solvers
+        n = rng.choice([1, 2])
+        lo, hi = H.random_box(rng, n)
+        case = {'n': n, 'lo': lo, 'hi': hi, 'objective': H.random_objective(rng, n, kinds=('sin', 'quad', 'cones'), lo=lo, hi=hi), 'r': 2.5,
+                'eps': rng.choice([1e-9, 0.01]), 'iters': rng.choice([40, 60]), 'refine': _ % 2 == 0}
+        fails = O.guarded(reused_objects, case)
+        chk.evaluations += 1
+        if fails:
+            found += chk.violation('batching', fails[0], {'kind': 'reuse', 'case': case})
     for _ in range(300 if thorough else 70):
         n = rng.choice([1, 1, 2])
         lo, hi = H.random_box(rng, n)
@@ -100,7 +109,39 @@ def c11_with_reads(case):
     return []
 
 
+def reused_objects(case):
+    """the same SolverParameters object and the same Problem object used for several solvers, one after the other: every run is the same
+    run, and the objects still say what the caller put in them"""
+    import numpy as np
+    from iOpt.solver import Solver
+    from iOpt.solver_parametrs import SolverParameters
+    fails = []
+    params = SolverParameters(eps=case['eps'], r=case['r'], itersLimit=case['iters'], refineSolution=case.get('refine', False))
+    before = dict(vars(params))
+    runs = []
+    for k in range(3):
+        p = H.make_problem(case['n'], case['lo'], case['hi'], case['objective'])
+        lo0, hi0 = np.array(p.lowerBoundOfFloatVariables, copy=True), np.array(p.upperBoundOfFloatVariables, copy=True)
+        s = Solver(p, parameters=params)
+        with H.quiet():
+            if k == 1:
+                s.DoGlobalIteration(3)
+            sol = s.Solve()
+        runs.append(([tuple(y) for y, _ in p.log][:sol.numberOfGlobalTrials], sol.numberOfGlobalTrials))
+        if not (np.array_equal(lo0, p.lowerBoundOfFloatVariables) and np.array_equal(hi0, p.upperBoundOfFloatVariables)):
+            fails.append('the bounds stored in the Problem object were changed by a run: %r..%r -> %r..%r' % (list(lo0), list(hi0), list(p.lowerBoundOfFloatVariables), list(p.upperBoundOfFloatVariables)))
+        now = dict(vars(params))
+        if {k_: v for k_, v in now.items() if k_ != 'startPoint'} != {k_: v for k_, v in before.items() if k_ != 'startPoint'}:
+            diff = {k_: (before[k_], now[k_]) for k_ in before if k_ != 'startPoint' and before[k_] != now[k_]}
+            fails.append('the SolverParameters object handed to Solver was modified: %r' % diff); break
+    if not fails and any(r != runs[0] for r in runs[1:]):
+        fails.append('repeating the run with the same SolverParameters object gives %r trials, the first run made %d' % ([r[1] for r in runs], runs[0][1]))
+    return fails
+
+
 def replay(chk, rp):
+    if rp.get('kind') == 'reuse':
+        fails = O.guarded(reused_objects, rp['case']); print(fails); return not fails
     if rp.get('kind') == 'batches':
         fails = O.guarded(O.c11, rp['case']) or O.guarded(c11_with_reads, rp['case'])
         print(fails); return not fails
